@@ -98,6 +98,7 @@ structure Sock where
   dev : Nat
   inq : List Nat := []
   shut : Bool := false
+  rdShut : Bool := false          -- the client did shutdown(SHUT_RD): every send() of the daemon fails with EPIPE, no EOF is seen
   accepted : Bool := false
   srvClosed : Bool := false       -- the daemon closed its end
   eofSeen : Bool := false         -- ... while the client still had its end open (it sees EOF)
@@ -219,6 +220,8 @@ def readHeader (c : Client) (now : Int) (inq : List Nat) (shut : Bool) : Client 
     Returns the new client record, the remaining socket bytes, the C function's result and `*pBlocked` as far as it
     matters (the frame loop of the caller runs only for an idle connection). -/
 def handleRead (cfg : Cfg) (now : Int) (c : Client) (inq : List Nat) (shut : Bool) : M (Client × List Nat × Bool × Bool) :=
+  if c.wr.isSome then .error (.assertFail "handle_read:writeLen==0") else
+  if c.readOff < hdr && c.readLen != 0 then .error (.assertFail "handle_read:readLen==0") else
   let (c, inq, err, lenZero, closeOnZero, result) := readHeader c now inq shut
   if !err && (result || !cfg.readLenGuard) && c.readOff ≥ hdr then
     if c.readLen > msg then .error (.assertFail "handle_read:readLen<=max_read_len") else
@@ -229,7 +232,8 @@ def handleRead (cfg : Cfg) (now : Int) (c : Client) (inq : List Nat) (shut : Boo
       else .ok ({ c with buf := c.buf ++ inq.take k, readOff := c.readOff + k, lastIo := now }, inq.drop k, result, false)
     else
       -- recv returned 0 (nothing asked for, or end of stream) or EAGAIN.  `*pBlocked` is then set from a STALE errno
-      -- (`else if (errno == EAGAIN)`): in the harness the last failed call is the EAGAIN of draining the clients
+      -- (`else if (errno == EAGAIN)`; POSIX leaves errno unspecified after a call that succeeds): the harness pins it to
+      -- EAGAIN in its `recv` wrapper whenever recv returns 0
       .ok (c, inq, if ((want == 0) || shut) && closeOnZero then false else result, true)
   else .ok (c, inq, if err && lenZero && closeOnZero then false else result, false)
 
@@ -308,16 +312,9 @@ def updClientServices (sup : Nat) (isNew : Bool) (newIdx : Int) (c : Client) : C
     let c := if isNew then { c with sv := c.sv.set i (land (c.sv.getD i 0) gr) } else c
     (c, lor dsv gr, n + 1, e || (isNew && (i : Int) == newIdx && gr == 0))) ({ c with allSv := 0 }, 0, 0, false)
 
-/-- vbi_proxyd_update_services -> (state, result, device error string set) -/
-def updateServices (s : State g) (d : Nat) (newReq : Option Nat) (newIdx : Int) : State g × Bool × Bool :=
-  let (s, result, e0) :=
-    if !(getDev s d).cap then
-      let anySv := s.clients.any (fun c => c.sv.any (· != 0))
-      if anySv then (let (s1, r) := startAcq s d; (s1, r, !r))
-      else if (getDev s d).api == apiUNKNOWN then (stopAcq (startAcq s d).1 d, true, false)
-      else (s, true, false)
-    else (s, false, false)
-  if !(getDev s d).cap then (s, result, e0) else
+/-- vbi_proxyd_update_services, the part that runs with the device open: every client's services are applied again, the
+    device's service mask / max_lines are updated or the device is closed -/
+def updTail (s : State g) (d : Nat) (newReq : Option Nat) (newIdx : Int) (e0 : Bool) : State g × Bool × Bool :=
   let sup := (getDev s d).sup
   let (cs, dsv, n, e) := s.clients.foldl (fun (acc : List Client × Nat × Nat × Bool) c =>
       let (out, dsv, n, e) := acc
@@ -333,6 +330,17 @@ def updateServices (s : State g) (d : Nat) (newReq : Option Nat) (newIdx : Int) 
     else (s, n == 0)
   let s := if dsv == 0 || !result then stopAcq s d else s
   (s, result, e0 || e)
+
+/-- vbi_proxyd_update_services -> (state, result, device error string set) -/
+def updateServices (s : State g) (d : Nat) (newReq : Option Nat) (newIdx : Int) : State g × Bool × Bool :=
+  let (s, result, e0) :=
+    if !(getDev s d).cap then
+      let anySv := s.clients.any (fun c => c.sv.any (· != 0))
+      if anySv then (let (s1, r) := startAcq s d; (s1, r, !r))
+      else if (getDev s d).api == apiUNKNOWN then (stopAcq (startAcq s d).1 d, true, false)
+      else (s, true, false)
+    else (s, false, false)
+  if !(getDev s d).cap then (s, result, e0) else updTail s d newReq newIdx e0
 
 /-- vbi_proxyd_take_service_req -> (state, result, first word of the error text) -/
 def takeServiceReq (s : State g) (h d : Nat) (services : Nat) (strict : Int) : M (State g × Bool × String) :=
@@ -460,8 +468,9 @@ def flushForced (cfg : Cfg) (s : State cfg.g) (d : Nat) (forced : Bool) : M (Sta
     else .ok (setDev s d (fun x => { x with nFlush := x.nFlush + 1, fq := [] }))
   else .ok s
 
-/-- vbi_proxyd_channel_update -/
-def channelUpdate (cfg : Cfg) (s : State cfg.g) (d : Nat) (req : Option Nat) (forced : Bool) : M (State cfg.g × Bool) :=
+/-- vbi_proxyd_channel_update, first part: the device takes the highest priority of its clients; with a non-background
+    priority or after a forced switch whoever controls the channel is stopped -> (state, max_chn_prio) -/
+def chnPrep (cfg : Cfg) (s : State cfg.g) (d : Nat) (forced : Bool) : State cfg.g × Nat :=
   let maxPrio := s.clients.foldl (fun m c => if c.dev == d && (recOf s c.h).prio > m then (recOf s c.h).prio else m) prioBACKGROUND
   let s := if (getDev s d).prio != maxPrio then setDev s d (fun x => { x with prio := maxPrio }) else s
   let s := if maxPrio > prioBACKGROUND || forced then
@@ -470,26 +479,38 @@ def channelUpdate (cfg : Cfg) (s : State cfg.g) (d : Nat) (req : Option Nat) (fo
         | some c => if c.dev == d && (tokOf s c.h).controls then channelStopped s c.h else s
         | none => s) s
     else s
-  let (s, sched) :=
-    if maxPrio == prioBACKGROUND then channelSchedule cfg s d
-    else match req with
-      | some h => if (findClient s h).isSome && (recOf s h).prio == maxPrio then (s, some h) else (s, none)
-      | none => (s, none)
-  let fin (s : State cfg.g) (r : Bool) : M (State cfg.g × Bool) := .ok (if maxPrio == prioBACKGROUND then timerUpdate s else s, r)
+  (s, maxPrio)
+
+/-- second part: who gets the channel - the scheduler's choice at background priority, else the requester if it has the
+    device's priority -/
+def chnPick (cfg : Cfg) (s : State cfg.g) (d : Nat) (req : Option Nat) (maxPrio : Nat) : State cfg.g × Option Nat :=
+  if maxPrio == prioBACKGROUND then channelSchedule cfg s d
+  else match req with
+    | some h => if (findClient s h).isSome && (recOf s h).prio == maxPrio then (s, some h) else (s, none)
+    | none => (s, none)
+
+/-- the end of every path: the scheduler's timer is set at background priority -/
+def chnFin (s : State g) (maxPrio : Nat) (r : Bool) : M (State g × Bool) :=
+  .ok (if maxPrio == prioBACKGROUND then timerUpdate s else s, r)
+
+/-- vbi_proxyd_channel_update -/
+def channelUpdate (cfg : Cfg) (s : State cfg.g) (d : Nat) (req : Option Nat) (forced : Bool) : M (State cfg.g × Bool) :=
+  let (s, maxPrio) := chnPrep cfg s d forced
+  let (s, sched) := chnPick cfg s d req maxPrio
   match sched.bind (findClient s) with
   | some p =>
     if maxPrio == prioBACKGROUND && !(tokOf s p.h).controls then
       match tokenGrant s p.h with
       | .error e => .error e
       | .ok (s, free) =>
-        if free then fin (modClient s p.h (fun c => { c with completed := false, lastDur := 0, lastStart := s.now })) (some p.h == req)
-        else fin s false
+        if free then chnFin (modClient s p.h (fun c => { c with completed := false, lastDur := 0, lastStart := s.now })) maxPrio (some p.h == req)
+        else chnFin s maxPrio false
     else match flushForced cfg s d forced with
       | .error e => .error e
-      | .ok s => fin s false
+      | .ok s => chnFin s maxPrio false
   | none => match flushForced cfg s d forced with
       | .error e => .error e
-      | .ok s => fin s false
+      | .ok s => chnFin s maxPrio false
 
 /-- vbi_proxyd_channel_flush -/
 def channelFlush (s : State g) (d : Nat) : State g :=
@@ -529,7 +550,7 @@ def closeClient (s : State g) (h : Nat) : State g :=
   match findClient s h with
   | some c =>
     if c.st != .closed then
-      setSock (modClient s h (fun c => { c with st := .closed, sockOpen := false, pend := [] })) h (fun k => { k with srvClosed := true, eofSeen := k.eofSeen || !k.shut })
+      setSock (modClient s h (fun c => { c with st := .closed, sockOpen := false, pend := [] })) h (fun k => { k with srvClosed := true, eofSeen := k.eofSeen || !(k.shut || k.rdShut) })
     else s
   | none => s
 
@@ -672,7 +693,7 @@ def clientIo (cfg : Cfg) (s : State cfg.g) (h : Nat) (sel : Option Sel) (ready :
           else .ok (s, blocked)
         else .ok (closeClient s h, blocked)
     else if sel == some .wr && ready && c.wr.isSome then
-      if sk.shut then .ok (closeClient s h, false)
+      if sk.shut || sk.rdShut then .ok (closeClient s h, false)      -- send() fails (EPIPE)
       else match c.wr with
         | some (text, _) => .ok (deliver (modClient s h (fun c => { c with wr := none, lastIo := s.now })) h text, false)
         | none => .ok (s, false)
@@ -694,7 +715,7 @@ def clientIdle (cfg : Cfg) (s : State cfg.g) (h : Nat) (ioBlocked : Bool) : M (S
         .ok (modClient (msgWrite s h "CHANGE_IND" szChangeInd s!"fl{c.ind}:scan{(getDev s c.dev).scanning}") h (fun c => { c with ind := 0 }))
       else if c.pend != [] && !ioBlocked then
         -- every waiting frame is written at once (the socket never blocks in the harness)
-        if (getSock s h).shut then .ok (closeClient s h)
+        if (getSock s h).shut || (getSock s h).rdShut then .ok (closeClient s h)      -- send() of the sliced message fails (EPIPE)
         else .ok (modClient (c.pend.foldl (fun s f => deliver s h (slicedText c f)) s) h (fun c => { c with pend := [], lastIo := s.now }))
       else .ok s
 
@@ -780,6 +801,7 @@ inductive Op
   | connect (d : Nat)
   | send (h : Nat) (bytes : List Nat)
   | shut (h : Nat)
+  | shutRd (h : Nat)      -- shutdown(SHUT_RD) on the client side
   | iter
   | tick (n : Nat)
   | alarm
@@ -794,6 +816,7 @@ def opOk (s : State g) : Op → Bool
   | .connect d => d < nDev && s.socks.length < 16 && (s.socks.filter (fun k => k.dev == d && !k.accepted)).length < 8
   | .send h _ => h < s.socks.length && !(getSock s h).shut
   | .shut h => h < s.socks.length && !(getSock s h).shut
+  | .shutRd h => h < s.socks.length && !(getSock s h).shut && !(getSock s h).rdShut
   | .frame d ids => d < nDev && ids.length ≤ 31 && (getDev s d).fq.length < 64
   | .devCfg d .. => d < nDev && s.socks.isEmpty
   | .recv h => h < s.socks.length
@@ -805,6 +828,7 @@ def step (cfg : Cfg) (s : State cfg.g) (op : Op) : M (State cfg.g) :=
   | .connect d => .ok { s with socks := s.socks ++ [{ dev := d }] }
   | .send h bs => .ok (if (getSock s h).srvClosed then s else setSock s h (fun k => { k with inq := k.inq ++ bs }))
   | .shut h => .ok (setSock s h (fun k => { k with shut := true }))
+  | .shutRd h => .ok (setSock s h (fun k => { k with rdShut := true }))
   | .iter => iter cfg s
   | .tick n =>
     let now := s.now + n
